@@ -2,7 +2,7 @@
 #define HX_HAS_ROTATION 0
 #include "generic.h"
 namespace hx {
-using B_b06 = manif::Bundle<double, manif::SE2, manif::SO3, manif::R2>;
+using B_b06 = manif::Bundle<HX_SC, manif::SE2, manif::SO3, manif::R2>;
 template <> struct Extra<B_b06> {
   static bool run(const Req& r, Resp& R) {
     // element<i>() views alias exactly the i-th element's coefficients
